@@ -153,8 +153,13 @@ def record(tier, seed, variants=(0,), names=None, procs=8):
 def _prune(keep=6):
     try:
         ds = sorted((os.path.getmtime(os.path.join(CACHE, x)), x) for x in os.listdir(CACHE))
-        for _, x in ds[:-keep]:
+        for mt, x in ds[:-keep]:
             import shutil
+
+            if time.time() - mt < 7200:
+                # a recording in progress in another process (thorough tier: ~20 min) must not lose its directory
+                # because more than `keep` other recordings were started meanwhile (observed with parallel mutant runs)
+                continue
 
             shutil.rmtree(os.path.join(CACHE, x), ignore_errors=True)
     except OSError:
